@@ -103,6 +103,7 @@ Proof.
   intros. repeat split.
   - apply ellipse_eccentricity_symmetric. - apply ellipse_perimeter_symmetric.
 Qed.
+Print Assumptions C10_eccentricity.
 (* the perimeter formula of the source, 4 a E(e^2) (definition regenerated from the source), is four times the arc length
    of the quarter ellipse gamma(t) = (a sin t, b cos t), 0 <= t <= pi/2, whose speed is sqrt((a cos t)^2 + (b sin t)^2) *)
 Theorem C10_ellipse_perimeter_is_arc_length :
@@ -115,6 +116,7 @@ Print Assumptions C10_ellipse_perimeter_is_arc_length.
 Theorem C10_iq_at_most_one_partial :
   forall a b cx cy cz, ellipse_iq a b cx cy cz <= 1 /\ forall r, circle_iq r cx cy cz = 1 /\ sphere_iq r cx cy cz = 1.
 Proof. intros. split; [apply gen_ellipse_iq_le_1 | intros; split; reflexivity]. Qed.
+Print Assumptions C10_iq_at_most_one_partial.
 (* partial: "iq = 1 ONLY for the circle" (isoperimetric inequality) and the identification of
    4 a E(e^2) with the arc-length integral / of Legendre's ellipsoid-area formula with the surface
    integral are NOT proved; they are covered by Interval-certified samples and quadrature. *)
